@@ -11,6 +11,8 @@ import (
 )
 
 func main() {
+	// type-check without materialised alias nodes so that a struct has one name
+	os.Setenv("GODEBUG", "gotypesalias=0")
 	if len(os.Args) < 2 {
 		fmt.Fprintln(os.Stderr, "usage: govc <verify|check|dump> ...")
 		os.Exit(2)
